@@ -387,3 +387,72 @@ T("C01", "twin-bytelist-cached-tuple-copied", B, _BYTELIST, "", edits=[
     (B, _BYTELIST_DEF, "@functools.lru_cache(maxsize=None)\ndef _all_single_bytes() -> Tuple[bytes, ...]:\n    return tuple(p8(x) for x in range(256))\n\n\n" + _BYTELIST_DEF),
     (B, _BYTELIST, "    skip = set(exclude or [])\n    return [k for k in _all_single_bytes() if k not in skip]\n"),
 ])
+
+# ================================================================================================ R11: the XorEncoded view drops no non-empty chunk
+X = "xordecode.py"
+_CHUNK = (
+    "            chunk = self.fh.read(4)\n"
+    "            if not chunk:\n"
+    "                break\n"
+)
+_CHUNK_READ = "            chunk = self.fh.read(4)\n"
+_DECODE_LOOP = (
+    "        while True:\n"
+    + _CHUNK +
+    "            # log.debug(f\"{chunk}, {nonce}\")\n"
+    "            data += xor(chunk, nonce)\n"
+    "            nonce = chunk\n"
+    "            if n > 0 and len(data) >= n:\n"
+    "                break\n"
+)
+# a last word of 1-3 bytes is consumed but not decoded (other spellings of "only whole words" than the seeded one)
+M("C01", "view-drops-short-last-word-ne", X, _CHUNK, _CHUNK_READ + "            if len(chunk) != 4:\n                break\n", "C01.R11")
+M("C01", "view-drops-short-last-word-or", X, _CHUNK, _CHUNK_READ + "            if not chunk or len(chunk) <= 3:\n                break\n", "C01.R11")
+M("C01", "view-drops-short-last-word-walrus", X, _DECODE_LOOP,
+  "        while len(chunk := self.fh.read(4)) == 4:\n"
+  "            data += xor(chunk, nonce)\n"
+  "            nonce = chunk\n"
+  "            if n > 0 and len(data) >= n:\n"
+  "                break\n", "C01.R11")
+M("C01", "view-drops-short-last-word-nested", X, _DECODE_LOOP,
+  "        while True:\n"
+  + _CHUNK_READ +
+  "            if len(chunk) >= 4:\n"
+  "                data += xor(chunk, nonce)\n"
+  "                nonce = chunk\n"
+  "                if n > 0 and len(data) >= n:\n"
+  "                    break\n"
+  "            else:\n"
+  "                break\n", "C01.R11")
+# a chunk is read although enough was decoded already, and thrown away
+M("C01", "view-drops-chunk-read-ahead", X, _CHUNK, _CHUNK_READ + "            if not chunk or (n > 0 and len(data) >= n):\n                break\n", "C01.R11")
+# "the data has ended" spelled differently; the chunk under another name; the short last word decoded on a path of its own
+T("C01", "twin-view-end-of-data-len-eq-0", X, _CHUNK, _CHUNK_READ + "            if len(chunk) == 0:\n                break\n")
+T("C01", "twin-view-end-of-data-len-lt-1", X, _CHUNK, _CHUNK_READ + "            if len(chunk) < 1:\n                break\n")
+T("C01", "twin-view-end-of-data-eq-empty", X, _CHUNK, _CHUNK_READ + "            if chunk == b\"\":\n                break\n")
+T("C01", "twin-view-end-of-data-mirrored", X, _CHUNK, _CHUNK_READ + "            if 0 >= len(chunk):\n                break\n")
+T("C01", "twin-view-walrus", X, _DECODE_LOOP,
+  "        while chunk := self.fh.read(4):\n"
+  "            data += xor(chunk, nonce)\n"
+  "            nonce = chunk\n"
+  "            if n > 0 and len(data) >= n:\n"
+  "                break\n")
+T("C01", "twin-view-nested-if", X, _DECODE_LOOP,
+  "        while True:\n"
+  + _CHUNK_READ +
+  "            if len(chunk) > 0:\n"
+  "                data += xor(chunk, nonce)\n"
+  "                nonce = chunk\n"
+  "                if n > 0 and len(data) >= n:\n"
+  "                    break\n"
+  "            else:\n"
+  "                break\n")
+# the short last word is decoded like every other one; that it was the last is remembered to save the final empty read
+T("C01", "twin-view-short-last-word-ends-loop", X, _DECODE_LOOP,
+  "        while True:\n"
+  + _CHUNK +
+  "            last = len(chunk) < 4\n"
+  "            data += xor(chunk, nonce)\n"
+  "            nonce = chunk\n"
+  "            if last or (n > 0 and len(data) >= n):\n"
+  "                break\n")
